@@ -475,8 +475,9 @@ Proof. reflexivity. Qed.
 (* what a function call does (see Sem/FlatLoop.v), the positional parameters of the function body being run, and the loop
    counter at the start of the definition-free stretch of code we are in: functions called from it were translated
    before it, so their loops have flags with smaller numbers *)
-Variable call : bytes -> list bytes -> shenv -> option (shenv * bytes).
+Variable call : nat -> bytes -> list bytes -> shenv -> option (shenv * bytes).
 Variable pos : list bytes.
+Hypothesis call_mono : fuel_mono call.
 Variable klo : nat.
 (* functions with a number below mlo may run while this stretch of code runs (they were defined before it) *)
 Variable mlo : nat.
@@ -504,7 +505,7 @@ Definition untouched (XS : list var) (s s' : bstate) (b b' : shenv) : Prop :=
 Definition call_refines : Prop :=
   forall XS f vals sg rvals sg1 o b s,
     scall XS f vals sg rvals sg1 o -> env_ok sg -> ctx_ok XS sg b s -> fresh_flags XS s ->
-    exists b1, call f (map text vals) b = Some (b1, o) /\ ctx_ok XS sg1 b1 s /\ untouched XS s s b b1 /\
+    exists b1, (exists f0, forall fu, (f0 <= fu)%nat -> call fu f (map text vals) b = Some (b1, o)) /\ ctx_ok XS sg1 b1 s /\ untouched XS s s b b1 /\
                (forall i v, nth_error rvals i = Some v -> sh_get (rv_name i) b1 = text v).
 Hypothesis call_ok : call_refines.
 
@@ -765,8 +766,12 @@ Qed.
 
 (* ---- call statements ---- *)
 Lemma lruns_call f args e e1 o1 L rest res :
-  call f (map (atom_text e) args) e = Some (e1, o1) -> lruns e1 L rest res -> lruns e L (LCall f args :: rest) (prepend o1 res).
-Proof. intros Hc [n Hn]. exists (S n). cbn [lrun]. rewrite Hc, Hn. destruct res; reflexivity. Qed.
+  (exists f0, forall fu, (f0 <= fu)%nat -> call fu f (map (atom_text e) args) e = Some (e1, o1)) -> lruns e1 L rest res ->
+  lruns e L (LCall f args :: rest) (prepend o1 res).
+Proof.
+  intros [f0 Hc] [n Hn]. exists (S (Nat.max n f0)). cbn [lrun]. rewrite (Hc (Nat.max n f0) (Nat.le_max_r _ _)).
+  rewrite (lrun_mono call pos call_mono n false e1 L rest res Hn (Nat.max n f0) (Nat.le_max_l _ _)). destruct res; reflexivity.
+Qed.
 
 (* arguments, then the call line *)
 Lemma call_args XS sg f args s va s1 b vals rvals sg1 o :
